@@ -258,6 +258,8 @@ RawClauses(ev, preRows, postRows) ==
        <<"C13", "step_installs_that_state", ev.ev = "step" => ev.installed>>,
        <<"C14", "no_other_entropy", Len(ev.entropy) = 0>>,
        <<"C13", "state_not_modified_between_calls", ev.ev = "step" => Len(ev.pre_rows) = 0>>,
+       \* the observation array returned by the previous reset / step of this environment is not rewritten by this call
+       <<"C08", "earlier_observation_not_rewritten", "prev_obs_same" \in DOMAIN ev => ev.prev_obs_same>>,
        <<"C06", "steps_counter_continuity", ev.steps_before = steps[e]>> >>
 
 HistClauses(ev, E) ==
